@@ -185,7 +185,7 @@ fn main() -> Result<()> {
                 Some((&FifoEntry::WrapAroundMarker(marker), timestamps)) => {
                     (Some(marker), timestamps)
                 }
-                Some((_, timestamps)) => (None, timestamps),
+                Some(_) => (None, chunk),
                 _ => unreachable!(),
             };
             for &tsc in timestamps {
